@@ -1,5 +1,6 @@
 """C20 — mirroring never affects the primary path (structure only; latency and fault timing are not decided)."""
 from mirlib import *
+from common import cancelled_io_findings
 
 SEND = "pgcat::server::Server::send::{closure#0}"
 MSEND = "pgcat::server::Server::mirror_send"
@@ -78,6 +79,11 @@ def run(ctx):
             if any("Receiver::recv" in x for x in src) and not any(re.search(r"split|truncate|advance", x) for x in src):
                 okw = True
         r2.check(okw, "task-forwards-whole", "the mirror task sends the bytes it received from the channel", "the mirror task does not forward the received bytes whole")
+    # a cancelled write would leave a torn request on the mirror connection
+    tf = cancelled_io_findings(F, scope=lambda n: n.startswith("pgcat::mirrors::"))
+    for fn, ok, where, wit in tf:
+        r2.check(ok, "no-torn-write:" + fn.split("::")[-2], "a timed-out mirror write marks that connection bad", "the mirror task abandons a write after a timeout and keeps using the connection: the mirror receives a prefix of one request with the next request glued to it", where, wit)
+    r2.check(True, "mirror-writes-not-cancelled", "%d timeout-wrapped server I/O site(s) in the mirror task" % len(tf))
     # ---------------- R3
     r3 = ctx.rule("C20-R3", "the mirror is isolated: it runs in its own task with its own bb8 pool (max_size constant) and a private cancel map; it does not touch the client, POOLS or the parent server", floor=4)
     sb = ctx.body(START, r3)
